@@ -1,5 +1,6 @@
 SPECIFICATION MCSpec
 CONSTANTS
+  AllSchedules = FALSE
   PermuteModules = FALSE
   Trees = {"flat", "nested", "three", "empty"}
   BackSets = {"none", "pro", "epi", "both", "two", "mixed", "comment", "other"}
